@@ -103,7 +103,7 @@ func FillFromDatum(s *refavro.Schema, d any, t *gen.T, v reflect.Value) error {
 		f := d.(float32)
 		switch t.K {
 		case gen.KFloat32:
-			v.Set(reflect.ValueOf(f))
+			*(*float32)(v.Addr().UnsafePointer()) = f
 		case gen.KNullFloat:
 			v.FieldByName("Float64").SetFloat(float64(f))
 			v.FieldByName("Valid").SetBool(true)
@@ -119,7 +119,7 @@ func FillFromDatum(s *refavro.Schema, d any, t *gen.T, v reflect.Value) error {
 			if f == f && float64(float32(f)) != f {
 				return ErrInexact
 			}
-			v.Set(reflect.ValueOf(float32(f)))
+			*(*float32)(v.Addr().UnsafePointer()) = float32(f)
 		case gen.KNullFloat:
 			v.FieldByName("Float64").SetFloat(f)
 			v.FieldByName("Valid").SetBool(true)
@@ -352,7 +352,7 @@ func MatchUnder(s *refavro.Schema, t *gen.T, v reflect.Value, omit bool, d any, 
 		var f float32
 		switch t.K {
 		case gen.KFloat32:
-			f = v.Interface().(float32)
+			f = float32(v.Float())
 		case gen.KNullFloat:
 			f = float32(v.FieldByName("Float64").Float())
 		default:
@@ -368,7 +368,7 @@ func MatchUnder(s *refavro.Schema, t *gen.T, v reflect.Value, omit bool, d any, 
 		case gen.KFloat64:
 			f = v.Float()
 		case gen.KFloat32:
-			f = float64(v.Interface().(float32))
+			f = v.Float()
 		case gen.KNullFloat:
 			f = v.FieldByName("Float64").Float()
 		default:
